@@ -333,6 +333,41 @@ theorem strict_order_new (h : LawfulBase b pos same) (x y z : B) :
   · rw [(R x y).2.2.2.1, (R x y).1, ← decide_not]; exact decide_eq_decide.mpr (by omega)
   · rw [(R x y).2.2.1, (R y x).1]
 
+/-- the relational operators of a derived class WITH base iterators (TransformedRangeIterator, sparse ranges): they
+are forwarded to the base iterators (fix C16_facade_order_by_base), hence the position order, with no reference to
+the difference and so for positions ANY distance apart -/
+theorem rel_ops_forwarded_are_position_order_new (h : LawfulBase b pos same) (l r : B) :
+    NewF.ltB b l r = decide (pos l < pos r) ∧
+    NewF.leB b l r = decide (pos l ≤ pos r) ∧
+    NewF.gtB b l r = decide (pos l > pos r) ∧
+    NewF.geB b l r = decide (pos l ≥ pos r) ∧
+    NewF.ltB b l r = NewF.lt b l r ∧ NewF.leB b l r = NewF.le b l r ∧
+    NewF.gtB b l r = NewF.gt b l r ∧ NewF.geB b l r = NewF.ge b l r := by
+  have R := rel_ops_are_position_order_new h l r
+  have e1 : NewF.ltB b l r = decide (pos l < pos r) := by rw [NewF.ltB_spec, h.lt_pos]
+  have e2 : NewF.leB b l r = decide (pos l ≤ pos r) := by
+    rw [NewF.leB_spec, h.lt_pos, ← decide_not]; exact decide_eq_decide.mpr (by omega)
+  have e3 : NewF.gtB b l r = decide (pos l > pos r) := by rw [NewF.gtB_spec, h.lt_pos]
+  have e4 : NewF.geB b l r = decide (pos l ≥ pos r) := by
+    rw [NewF.geB_spec, h.lt_pos, ← decide_not]; exact decide_eq_decide.mpr (by omega)
+  exact ⟨e1, e2, e3, e4, by rw [e1, R.1], by rw [e2, R.2.1], by rw [e3, R.2.2.1], by rw [e4, R.2.2.2.1]⟩
+
+theorem strict_order_forwarded_new (h : LawfulBase b pos same) (x y z : B) :
+    NewF.ltB b x x = false ∧
+    (NewF.ltB b x y = true → NewF.ltB b y x = false) ∧
+    (NewF.ltB b x y = true → NewF.ltB b y z = true → NewF.ltB b x z = true) ∧
+    (same x y → (NewF.ltB b x y = true ∨ NewF.eq b x y = true ∨ NewF.gtB b x y = true)) ∧
+    (same x y → ¬ (NewF.ltB b x y = true ∧ NewF.eq b x y = true)) ∧
+    (same x y → ¬ (NewF.gtB b x y = true ∧ NewF.eq b x y = true)) ∧
+    NewF.leB b x y = !NewF.gtB b x y ∧
+    NewF.geB b x y = !NewF.ltB b x y ∧
+    NewF.gtB b x y = NewF.ltB b y x := by
+  have F := fun u v => rel_ops_forwarded_are_position_order_new h u v
+  have S := strict_order_new h x y z
+  rw [(F x x).2.2.2.2.1, (F x y).2.2.2.2.1, (F y x).2.2.2.2.1, (F y z).2.2.2.2.1, (F x z).2.2.2.2.1,
+    (F x y).2.2.2.2.2.1, (F x y).2.2.2.2.2.2.1, (F x y).2.2.2.2.2.2.2]
+  exact S
+
 end newfacade
 
 /-- std iterators, IntegralRangeIterator and DenseIterator are lawful bases: the `_new` theorems apply to
@@ -344,6 +379,8 @@ theorem bases_are_lawful :
   ⟨stdBase_lawful, irBase_lawful, denseBase_lawful⟩
 
 -- non-vacuity: the three bases are lawful, so e.g. a transformed iterator over an integral range obeys the laws
+example : NewF.ltB irBase ⟨3⟩ ⟨3⟩ = false ∧ NewF.ltB irBase ⟨3⟩ ⟨5⟩ = true ∧ NewF.geB denseBase ⟨0, 2⟩ ⟨0, 1⟩ = true ∧
+    NewF.leB stdBase ⟨0, 4⟩ ⟨0, 4⟩ = true ∧ NewF.gtB stdBase ⟨0, 4⟩ ⟨0, 5⟩ = false := by decide
 example : NewF.lt irBase ⟨3⟩ ⟨3⟩ = false ∧ NewF.lt irBase ⟨3⟩ ⟨5⟩ = true ∧
     NewF.minus stdBase ⟨0, 4⟩ 3 = ⟨0, 1⟩ ∧ NewF.diff denseBase (NewF.plus denseBase ⟨0, 1⟩ 2) ⟨0, 1⟩ = 2 ∧
     NewF.index stdBase (fun i => (getAt [5, 6, 7] i.pos).map (3 * · + 1)) ⟨0, 0⟩ 2 = some 22 ∧
@@ -481,29 +518,32 @@ theorem ir_diff_machine_wraps (bits : Nat) (hb : 0 < bits) (a b : IR) :
 
 example : IR.diffW 8 ⟨200⟩ ⟨0⟩ = (200 - 0) + (-1) * 2 ^ 8 := by decide
 
-/-- PARTIAL (finding F1 of round four).  Full statement wanted by the property: for every width and ALL values,
-`NewF.lt (irBaseW bits) a b = decide (a.value < b.value)` (and `<= > >=`).  The new IteratorFacade derives
-`< <= > >=` from the difference of the base iterators (`(it1 - it2) < 0`), and for a transformed range over an
-IntegralRange that difference is the machine difference: the comparisons are the position order exactly when
-`difference_type` can hold the distance; `==`/`!=` hold always.  Beyond that distance they are inverted (see the
-example below: `transformedRangeView(IntegralRange<unsigned char>(0,200), f)`: `begin() < end()` is false). -/
-theorem nf_over_integral_range_rel_ops_partial (bits : Nat) (hb : 0 < bits) (a b : IR) :
-    (NewF.eq (irBaseW bits) a b = decide (a.value = b.value) ∧ NewF.ne (irBaseW bits) a b = decide (a.value ≠ b.value)) ∧
-    (-(2 ^ (bits - 1)) ≤ a.value - b.value → a.value - b.value < 2 ^ (bits - 1) →
-      NewF.lt (irBaseW bits) a b = decide (a.value < b.value) ∧ NewF.le (irBaseW bits) a b = decide (a.value ≤ b.value) ∧
-      NewF.gt (irBaseW bits) a b = decide (a.value > b.value) ∧ NewF.ge (irBaseW bits) a b = decide (a.value ≥ b.value) ∧
+/-- ALL INTEGRAL TYPES AND BOUNDS, transformed ranges: the iterators of a transformed range over an
+`IntegralRange<T>` (new IteratorFacade over `IntegralRangeIterator<T>`, as the machine evaluates it for a `bits` wide
+`T`) compare as their positions for EVERY width and ALL values — also where `difference_type` cannot hold the distance
+(repaired code, fix C16_facade_order_by_base: before, the facade took the sign of the wrapping machine difference and
+e.g. `transformedRangeView(IntegralRange<unsigned char>(0,200), f)` had `begin() < end()` false).  The difference
+itself is the true one whenever it is representable (and the true one modulo `2^bits` otherwise: `ir_diff_machine_wraps`). -/
+theorem nf_over_integral_range_rel_ops (bits : Nat) (a b : IR) :
+    NewF.ltB (irBaseW bits) a b = decide (a.value < b.value) ∧ NewF.leB (irBaseW bits) a b = decide (a.value ≤ b.value) ∧
+    NewF.gtB (irBaseW bits) a b = decide (a.value > b.value) ∧ NewF.geB (irBaseW bits) a b = decide (a.value ≥ b.value) ∧
+    NewF.eq (irBaseW bits) a b = decide (a.value = b.value) ∧ NewF.ne (irBaseW bits) a b = decide (a.value ≠ b.value) ∧
+    (0 < bits → -(2 ^ (bits - 1)) ≤ a.value - b.value → a.value - b.value < 2 ^ (bits - 1) →
       NewF.diff (irBaseW bits) a b = a.value - b.value) := by
-  refine ⟨⟨?_, ?_⟩, ?_⟩
+  refine ⟨?_, ?_, ?_, ?_, ?_, ?_, ?_⟩
+  · rw [NewF.ltB_spec]; show IR.ltW bits a b = _; rw [IR.ltW_spec]
+  · rw [NewF.leB_spec]; show (!IR.ltW bits b a) = _; rw [IR.ltW_spec, ← decide_not]; exact decide_eq_decide.mpr (by omega)
+  · rw [NewF.gtB_spec]; show IR.ltW bits b a = _; rw [IR.ltW_spec]
+  · rw [NewF.geB_spec]; show (!IR.ltW bits a b) = _; rw [IR.ltW_spec, ← decide_not]; exact decide_eq_decide.mpr (by omega)
   · show IR.eqW bits a b = _; rw [IR.eqW_spec]
   · rw [NewF.ne_spec]; show (!IR.eqW bits a b) = _; rw [IR.eqW_spec, ← decide_not]
-  · intro h1 h2
-    have hd : NewF.diff (irBaseW bits) a b = a.value - b.value := (ir_diff_machine_exact bits hb a b h1 h2).1
-    rw [NewF.lt_spec, NewF.le_spec, NewF.gt_spec, NewF.ge_spec, hd]
-    refine ⟨?_, ?_, ?_, ?_, rfl⟩ <;> exact decide_eq_decide.mpr (by omega)
+  · intro hb h1 h2; exact (ir_diff_machine_exact bits hb a b h1 h2).1
 
--- non-vacuity, and the counterexample that keeps the theorem partial
-example : NewF.lt (irBaseW 8) ⟨0⟩ ⟨100⟩ = true ∧ NewF.ge (irBaseW 32) ⟨5⟩ ⟨5⟩ = true := by decide
-example : NewF.lt (irBaseW 8) ⟨0⟩ ⟨200⟩ = false ∧ NewF.gt (irBaseW 8) ⟨0⟩ ⟨200⟩ = true := by decide
+-- non-vacuity: the inputs that were wrong before the repair
+example : NewF.ltB (irBaseW 8) ⟨0⟩ ⟨200⟩ = true ∧ NewF.gtB (irBaseW 8) ⟨0⟩ ⟨200⟩ = false ∧
+    NewF.geB (irBaseW 32) ⟨2000000000⟩ ⟨-2000000000⟩ = true ∧ NewF.leB (irBaseW 8) ⟨-100⟩ ⟨100⟩ = true := by decide
+-- what a derived class WITHOUT base iterators still gets (sign of the machine difference): wrong beyond max(difference_type)
+example : NewF.lt (irBaseW 8) ⟨0⟩ ⟨200⟩ = false := by decide
 
 section indexed
 variable {B : Type} {b : Base B} {pos : B → Int} {same : B → B → Prop}
